@@ -77,13 +77,16 @@ type remedySpec struct {
 }
 
 type step struct {
-	Kind   string   `json:"kind"` // req | resize | burst
+	Kind   string   `json:"kind"` // req | resize | realloc | burst
 	Remedy int      `json:"remedy"`
 	Group  string   `json:"group,omitempty"`  // value of the group header ("" = header absent)
 	Groups []string `json:"groups,omitempty"` // burst: one header value per concurrent request
 	At     int64    `json:"at_ns"`            // offset from the base instant
 	NewW   int      `json:"new_window_s,omitempty"`
 	Tag    string   `json:"tag,omitempty"`
+	// realloc: the policies are applied again with other percentages for the remedy's groups (same remedy
+	// name, allowed count and window): per listed group, then the default percentage
+	NewPcts []float64 `json:"new_percentages,omitempty"`
 }
 
 type caseSpec struct {
@@ -119,7 +122,10 @@ func newHarness() (*harness, error) {
 }
 
 func (h *harness) scopedFor(rs remedySpec, w int) config.ScopedRemedy {
-	key := fmt.Sprintf("%s/%d", rs.Name, w)
+	key := fmt.Sprintf("%s/%d/%v", rs.Name, w, rs.Alloc)
+	if rs.Alloc != nil {
+		key = fmt.Sprintf("%s/%d/%v", rs.Name, w, *rs.Alloc)
+	}
 	if s, ok := h.scoped[key]; ok {
 		return s
 	}
@@ -151,6 +157,21 @@ func (h *harness) scopedFor(rs remedySpec, w int) config.ScopedRemedy {
 	}
 	h.scoped[key] = s
 	return s
+}
+
+// withPcts returns rs with the percentages of a realloc step (listed groups in order, then the default)
+func withPcts(rs remedySpec, pcts []float64) remedySpec {
+	if rs.Alloc == nil || len(pcts) != len(rs.Alloc.Groups)+1 {
+		return rs
+	}
+	a := *rs.Alloc
+	a.Groups = append([]groupAlloc(nil), rs.Alloc.Groups...)
+	for i := range a.Groups {
+		a.Groups[i].Pct = pcts[i]
+	}
+	a.DefaultPct = pcts[len(pcts)-1]
+	rs.Alloc = &a
+	return rs
 }
 
 func mkRequest(rs remedySpec, group string, id int) lunarMessages.OnRequest {
@@ -191,9 +212,12 @@ func run(c caseSpec, keep func(remedy int, group string) bool) (map[int][]verdic
 		curW[i] = r.W
 	}
 	out := map[int][]verdict{}
+	cur := append([]remedySpec(nil), c.Remedies...)
 	for i, s := range c.Steps {
-		rs := c.Remedies[s.Remedy]
+		rs := cur[s.Remedy]
 		switch s.Kind {
+		case "realloc":
+			cur[s.Remedy] = withPcts(rs, s.NewPcts)
 		case "resize":
 			curW[s.Remedy] = s.NewW
 		case "req":
@@ -368,13 +392,21 @@ func judge(c caseSpec, obs map[int][]verdict, js *judgeStats) []finding {
 	}
 	streams := map[streamKey]*streamState{}
 	activeInWindow := map[string]map[string]bool{} // remedy/window -> groups
+	cur := append([]remedySpec(nil), c.Remedies...)
+	reallocAt := map[int]int64{} // remedy -> instant of its latest re-allocation
 	for i, s := range c.Steps {
 		if s.Kind == "resize" {
 			curW[s.Remedy] = int64(s.NewW) * sec
 			js.inc("resize")
 			continue
 		}
-		rs := c.Remedies[s.Remedy]
+		if s.Kind == "realloc" {
+			cur[s.Remedy] = withPcts(cur[s.Remedy], s.NewPcts)
+			reallocAt[s.Remedy] = baseNs + s.At
+			js.inc("realloc")
+			continue
+		}
+		rs := cur[s.Remedy]
 		W := curW[s.Remedy]
 		t := baseNs + s.At
 		groups := []string{s.Group}
@@ -435,6 +467,15 @@ func judge(c caseSpec, obs map[int][]verdict, js *judgeStats) []finding {
 			if st == nil {
 				st = &streamState{dAgree: true, dBoundary: map[int64]int{}}
 				streams[k] = st
+			}
+			if ra, ok := reallocAt[s.Remedy]; ok && st.requests > 0 && st.lastT <= ra {
+				// the percentages changed since this counter's last request: the window in progress at that
+				// instant is transitional (the statement does not say which share governs it), later ones are not
+				if a := ceilMult(ra, W); a > st.assertFrom {
+					st.assertFrom = a
+				}
+				js.inc("nt:request-after-reallocation")
+				js.nt = true
 			}
 			if st.lastW != 0 && st.lastW != W {
 				oldEnd := (floorDiv(st.lastT, st.lastW) + 1) * st.lastW
@@ -529,7 +570,7 @@ func offStr(abs int64) string {
 // ---- generators --------------------------------------------------------------
 
 var (
-	kindsResize = []string{"req", "req", "req", "req", "req", "req", "req", "req", "req", "req", "req", "resize"}
+	kindsResize = []string{"req", "req", "req", "req", "req", "req", "req", "req", "req", "req", "req", "resize", "realloc"}
 	kindsBurst  = []string{"req", "burst", "req"}
 	pctPool     = []float64{100, 50, 25, 20, 33.3, 12.5, 66.67, 10, 0.1, 0, 150, 75}
 	// values that differ only in letter case, or where one is a prefix of the other, are different groups
@@ -583,6 +624,7 @@ type intent struct {
 	Group  int
 	Others []int // burst: group index per extra concurrent caller (-1 = same as Group)
 	NewW   int
+	Pcts   []float64
 }
 
 func genIntent(o genOpts) *rapid.Generator[intent] {
@@ -603,6 +645,10 @@ func genIntent(o genOpts) *rapid.Generator[intent] {
 		}
 		if in.Kind == "resize" {
 			in.NewW = rapid.SampledFrom(windowSizes).Draw(t, "neww")
+			return in
+		}
+		if in.Kind == "realloc" {
+			in.Pcts = rapid.SliceOfN(rapid.SampledFrom(pctPool), 4, 4).Draw(t, "pcts")
 			return in
 		}
 		in.Tag = rapid.SampledFrom(tags).Draw(t, "tag")
@@ -645,6 +691,12 @@ func genCase(t *rapid.T, o genOpts) caseSpec {
 		if in.Kind == "resize" {
 			c.Steps = append(c.Steps, step{Kind: "resize", Remedy: ri, NewW: in.NewW, At: now})
 			curW[ri] = int64(in.NewW) * sec
+			continue
+		}
+		if in.Kind == "realloc" {
+			if a := c.Remedies[ri].Alloc; a != nil {
+				c.Steps = append(c.Steps, step{Kind: "realloc", Remedy: ri, At: now, NewPcts: append(append([]float64(nil), in.Pcts[:len(a.Groups)]...), in.Pcts[3])})
+			}
 			continue
 		}
 		W := curW[ri]
@@ -693,7 +745,7 @@ func flushClasses(r *ev.Recorder, c caseSpec, js *judgeStats) {
 		r.ClassN(k, v)
 	}
 	for _, s := range c.Steps {
-		if s.Kind != "resize" {
+		if s.Kind != "resize" && s.Kind != "realloc" {
 			r.Class("delta=" + s.Tag)
 		}
 	}
